@@ -514,23 +514,12 @@ def _r10_5(ctx, R):
     n = 0
     for f in C.handler_defs(ctx):
         impl, _ = C.impl_of(ctx, f)
-        muts = []
-        for s in ctx.cg.calls_in(impl):
-            if s.method in MUTATOR_METHODS and any(
-                    g.cls is not None and g.cls.name == 'ResourceProvider'
-                    for g in s.callees):
-                muts.append(s.node)
-            elif any(g.qbase == 'placement.handlers.aggregate:_set_aggregates'
-                     for g in s.callees):
-                muts.append(s.node)
+        muts = C.mutator_sites(ctx, impl)
         if not muts:
             continue
-        for m in muts:
-            if isinstance(m.func, ast.Attribute) and isinstance(
-                    m.func.value, ast.Name):
-                recv = m.func.value.id
-            elif m.args and isinstance(m.args[0], ast.Name):
-                recv = m.args[0].id
+        for m, rx, _meth in muts:
+            if isinstance(rx, ast.Name):
+                recv = rx.id
             else:
                 continue
             g = cfgmod.cfg_of(impl)
@@ -571,7 +560,7 @@ def _r10_5(ctx, R):
             if uses == 0 and not bad:
                 continue
             n += 1
-            R.ob('R10.5', '%s:%s' % (f.qname, src(m.func)), not bad,
+            R.ob('R10.5', '%s:%s' % (f.qname, _meth), not bad,
                  'the generation in the response is read from the object '
                  'the mutator was called on (%s), not re-bound' % recv,
                  '; '.join('line %d %s' % (b.lineno, src(b)[:50])
